@@ -77,6 +77,48 @@ def build(points, order, same_chain, rng):
     return gen.pdb_text(chains)
 
 
+def cys_records(text):
+    """(chain, resseq) of the cysteines in file order"""
+    out = []
+    for ln in text.split("\n"):
+        if ln.startswith("ATOM") and ln[12:16].strip() == "SG":
+            out.append((ln[21], int(ln[22:26])))
+    return out
+
+
+def ssbond_lines(text, pairs):
+    cys = cys_records(text)
+    out = []
+    for n, (a, b) in enumerate(pairs, start=1):
+        (c1, s1), (c2, s2) = cys[a - 1], cys[b - 1]
+        out.append(f"SSBOND{n:4d} CYS {c1}{s1:5d}    CYS {c2}{s2:5d}                          1555   1555  2.03")
+    return "\n".join(out) + ("\n" if out else "")
+
+
+def decorate(text, kind, rng):
+    """header records and residue names that must not change which cysteines are bridged (detection follows coordinates)"""
+    sg, close, _d = relation_from_text(text)
+    n = len(sg)
+    allpairs = [[a, b] for a in range(1, n + 1) for b in range(a + 1, n + 1)]
+    far = [p_ for p_ in allpairs if p_ not in close]
+    if kind in ("ssbond-subset", "ssbond-subset+cym"):
+        text = ssbond_lines(text, close[:max(0, len(close) - 1)] + far[:1]) + text      # one bridge not listed, a wrong one listed
+    elif kind == "ssbond-all":
+        text = ssbond_lines(text, close) + text
+    elif kind == "ssbond-relabelled":
+        text = ssbond_lines(text, close).replace(" A ", " Z ").replace(" B ", " Y ") + text   # header names other chains
+    if kind in ("cym", "ssbond-subset+cym"):
+        cys = cys_records(text)
+        pick = set(rng.sample(range(len(cys)), max(1, len(cys) // 2)))
+        lines = []
+        for ln in text.split("\n"):
+            if ln.startswith("ATOM") and ln[17:20] == "CYS" and (ln[21], int(ln[22:26])) in [cys[i] for i in pick]:
+                ln = ln[:17] + "CYM" + ln[20:]
+            lines.append(ln)
+        text = "\n".join(lines)
+    return text
+
+
 def relation_from_text(text):
     """SG positions in file order and the within-limit relation, read back from the written PDB text"""
     sg = []
@@ -110,7 +152,7 @@ def _work(job):
         for res in cys:
             p = res.ss_bonded_partner
             obs.append({"partner": idx.get(id(p.residue), -1) if (res.ss_bonded and p is not None) else 0,
-                        "cyx": res.ffname.endswith("CYX"), "hg": res.has_atom("HG")})
+                        "cyx": res.ffname.endswith("CYX"), "hg": res.has_atom("HG"), "cym": res.name == "CYM" or res.ffname.endswith("CYM")})
     shutil.rmtree(wd, ignore_errors=True)
     return {"ok": r["ok"], "exc": r["exc_type"], "msg": str(r["exc"])[:120] if r["exc"] else "", "obs": obs}
 
@@ -160,8 +202,12 @@ def run(ctx):
             same = (gi + oi) % 3 == 0
             text = build(pts, order, same, rng)
             extra = [[], ["--nodebump"], ["--noopt"], ["--nodebump", "--noopt"], ["--drop-water"]][(gi + 2 * oi) % 5]
-            jobs.append({"text": text, "args": [f"--ff={ffs[(gi + oi) % 6]}"] + extra,
-                         "what": f"graph n={n} {g['close']} order={order} same_chain={same} opts={extra}"})
+            deco = ["plain", "ssbond-subset", "cym", "ssbond-all", "ssbond-subset+cym", "ssbond-relabelled"][(gi + 3 * oi + ctx.seed) % 6]
+            ff = ffs[(gi + oi) % 6]
+            if "cym" in deco and ff in ("PEOEPB", "CHARMM"):
+                ff = "AMBER"
+            jobs.append({"text": decorate(text, deco, rng), "args": [f"--ff={ff}"] + extra,
+                         "what": f"graph n={n} {g['close']} order={order} same_chain={same} opts={extra} input={deco}"})
     # axis-parallel pairs around the limit, across grid lines
     dists = [2.0, 2.04, 2.3, 2.45, 2.499, 2.5, 2.501, 2.6]
     starts = [-0.01, 0.0, 0.55, 1.5, 1.98, 1.99, 4.97, -2.01]
